@@ -7,15 +7,213 @@ import (
 	"strings"
 
 	"golang.org/x/mod/modfile"
+	"golang.org/x/mod/module"
 	"golang.org/x/mod/semver"
 )
 
 func init() {
 	register(&Prop{ID: "C16", Gen: genC16, Oracle: oracleC16,
-		Rule: "same session generator as C08 (different random stream); the oracle uses starting files x (0-3 prefix ops, Cleanup, one bulk setter with distinct paths, Cleanup); non-trivial = at least one op hits a line of the starting file; distinct by op line"})
+		Rule: "same session generator as C08 (different random stream); the oracle uses starting files x (0-3 prefix ops, Cleanup, one bulk setter with distinct paths, Cleanup); plus the family 'exclude order across the go-version threshold' in generator and oracle (go versions of every digit-count class of major/minor, with patch/pre-release parts, x exclude blocks with several versions of one path whose lexical and semantic orders differ, x bulk setter; the oracle also sweeps minors 0-30 and the digit-count boundaries exhaustively); non-trivial = at least one op hits a line of the starting file; distinct by op line"})
 }
 
-func genC16(g *Gen, n int) { edGenCommon(g, n, 16) }
+func genC16(g *Gen, n int) {
+	edGenCommon(g, n, 16)
+	// the family "exclude order across the go-version threshold" (see edC16ThresholdSession)
+	for i := 0; i < n/16+8; i++ {
+		file, ops := edC16ThresholdSession(g.Rand)
+		hit := edC16Hit(file, ops)
+		tags := []string{"exclude-order-threshold", "go.mod", "len:" + sizeBucket(len(ops))}
+		for _, o := range ops {
+			tags = append(tags, "op:"+o.Name)
+		}
+		if edEmitAbs {
+			if run := edRunSession(false, file, nil); !run.ParseErr {
+				g.Emit(edAbsStepLine(false, run.Start, ops), hit, tags...)
+			}
+		}
+		if edEmitSession {
+			g.Emit(edSessionLine(false, file, ops), hit, tags...)
+		}
+	}
+}
+
+// ---- input class "exclude order across the go-version threshold"
+//
+// The documented order of an exclude block depends on the go directive: lexical by tokens below go 1.21, module
+// path then semantic version from go 1.21 on.  The shared session generator (util_editgen.go) draws go versions
+// from a pool whose members all have a two-digit minor (1.12 ... 1.23.1), and it only rarely builds an exclude
+// block holding two versions of ONE path whose lexical and semantic orders differ.  So an implementation whose
+// "go 1.21 or newer" decision is right on two-digit minors but wrong on minors with another digit count (a
+// textual instead of a numeric comparison: "1.9" vs "1.21", "1.100" vs "1.21"), on other majors, or on patch
+// releases of old versions, was never driven to an observable difference.  This family crosses
+//
+//	(a) go versions of every digit-count class of major and minor, with optional patch / pre-release part, set
+//	    by the starting file or by an AddGoStmt in the prefix, with
+//	(b) exclude blocks holding several versions of one path whose numeric fields differ in digit count or that
+//	    pair a release with its pre-releases (the pairs on which the two documented orders disagree),
+//
+// followed by Cleanup, one bulk setter, Cleanup.  The oracle (edBlocksSorted) is unchanged.
+
+// edC16GoVersion draws a well-formed go version; the digit count of the minor is drawn first.
+func edC16GoVersion(r *Rand) string {
+	major := "1"
+	if r.Chance(10) {
+		major = r.Pick([]string{"2", "3", "10", "12"})
+	}
+	minor := 0
+	switch r.Intn(5) {
+	case 0, 1:
+		minor = r.Intn(10) // one digit
+	case 2:
+		minor = 10 + r.Intn(90) // two digits
+	case 3:
+		minor = 18 + r.Intn(7) // two digits, around the threshold
+	case 4:
+		minor = 100 + r.Intn(200) // three digits
+	}
+	s := major + "." + itoa(minor)
+	switch {
+	case r.Chance(25):
+		s += "." + itoa(r.Intn(13))
+	case r.Chance(6):
+		s += r.Pick([]string{"rc1", "beta2"})
+	}
+	return s
+}
+
+// edC16Versions draws k distinct canonical versions of one path (major prefix vN) whose numeric fields have
+// different digit counts and whose pre-release parts vary.
+func edC16Versions(r *Rand, path string, k int) []string {
+	pre := "v1."
+	if _, major, ok := module.SplitPathVersion(path); ok && major != "" {
+		pre = "v" + strings.TrimLeft(major, "/.v") + "."
+	}
+	var out []string
+	seen := map[string]bool{}
+	for tries := 0; len(out) < k && tries < 40; tries++ {
+		v := pre + r.Pick([]string{"0", "2", "9", "10", "11", "100"}) + "." + r.Pick([]string{"0", "0", "3", "10"})
+		if r.Chance(30) {
+			v += r.Pick([]string{"-rc.1", "-rc.2", "-rc.10", "-beta", "-0", "-alpha.1"})
+		}
+		if len(out) > 0 && r.Chance(35) {
+			// a pre-release of a release already drawn (or the release of a pre-release)
+			b := out[r.Intn(len(out))]
+			if i := strings.IndexByte(b, '-'); i >= 0 {
+				v = b[:i]
+			} else {
+				v = b + r.Pick([]string{"-rc.1", "-rc.10", "-beta"})
+			}
+		}
+		if !seen[v] {
+			seen[v] = true
+			out = append(out, v)
+		}
+	}
+	return out
+}
+
+// edC16ThresholdSession: a starting go.mod with a go directive, requirements and at least one multi-version
+// exclude block, and the ops [0-2 prefix ops] cleanup <bulk setter> cleanup.
+func edC16ThresholdSession(r *Rand) (file string, ops []edOp) {
+	excl := []string{r.Pick(edModPaths)}
+	if r.Chance(50) {
+		excl = append(excl, r.Pick(edModPaths))
+	}
+	for try := 0; ; try++ {
+		g := &edFG{r: r}
+		g.b.WriteString("module example.com/m\n\n")
+		if r.Chance(92) {
+			g.b.WriteString("go " + edC16GoVersion(r) + "\n\n")
+		}
+		nreq := r.Intn(3)
+		for i := 0; i < nreq; i++ {
+			g.stmt("require", "example.com/m")
+		}
+		nblk := 1
+		if r.Chance(15) {
+			nblk = 2
+		}
+		for b := 0; b < nblk; b++ {
+			var lines []string
+			for i, p := range excl {
+				k := 2 + r.Intn(4)
+				if i > 0 {
+					k = r.Intn(3)
+				}
+				for _, v := range edC16Versions(r, p, k) {
+					lines = append(lines, "\t"+p+" "+v+g.suffix("exclude")+"\n")
+				}
+			}
+			for i := len(lines) - 1; i > 0; i-- { // shuffle
+				j := r.Intn(i + 1)
+				lines[i], lines[j] = lines[j], lines[i]
+			}
+			g.before("")
+			g.b.WriteString("exclude (\n" + strings.Join(lines, "") + ")\n\n")
+			if r.Chance(20) {
+				g.stmt(r.Pick([]string{"exclude", "replace", "require"}), "example.com/m")
+			}
+		}
+		file = g.b.String()
+		if _, err := modfile.Parse("go.mod", []byte(file), nil); err == nil {
+			break
+		}
+		if try >= 20 {
+			file = "module example.com/m\n\ngo 1.9\n\nexclude (\n\texample.com/a v1.9.0\n\texample.com/a v1.10.0\n)\n"
+			break
+		}
+	}
+	cur := edRunSession(false, file, nil).Start
+	if r.Chance(45) {
+		k := 1 + r.Intn(2)
+		for i := 0; i < k; i++ {
+			switch r.Intn(4) {
+			case 0, 1: // the threshold is crossed (or not) by an edit of the go directive
+				ops = append(ops, edOp{Name: "go", A: []string{edC16GoVersion(r)}})
+			case 2: // one more version of an excluded path, appended to the block
+				p := excl[r.Intn(len(excl))]
+				ops = append(ops, edOp{Name: "exclude", A: []string{p, edC16Versions(r, p, 1)[0]}})
+			case 3:
+				if n := len(cur.L[edExclude]); n > 0 {
+					e := cur.L[edExclude][r.Intn(n)]
+					ops = append(ops, edOp{Name: "dropexclude", A: []string{e.K[0], e.K[1]}})
+				} else {
+					ops = append(ops, edOp{Name: "dropgo"})
+				}
+			}
+		}
+	}
+	set := edOp{Name: r.Pick([]string{"setrequire", "setrequiresep"}), List: edGenReqList(r, cur), Rev: r.Bool()}
+	ops = append(ops, edOp{Name: "cleanup"}, set, edOp{Name: "cleanup"})
+	return file, ops
+}
+
+// edC16Hit: the non-triviality rule of the property (at least one op hits a line of the starting file).
+func edC16Hit(file string, ops []edOp) bool {
+	f, err := modfile.Parse("go.mod", []byte(file), nil)
+	if err != nil {
+		return false
+	}
+	start := edDirsOfFile(f, nil)
+	id := 0
+	for k := range start.L {
+		for i := range start.L[k] {
+			start.L[k][i].ID = id
+			id++
+		}
+	}
+	for _, p := range []*edEnt{start.Module, start.Go, start.Toolchain} {
+		if p != nil {
+			p.ID = id
+			id++
+		}
+	}
+	a := &edAbs{edDirs: edCloneDirs(start), Work: false, Touched: map[int]bool{}}
+	for _, o := range ops {
+		a.step(o)
+	}
+	return len(a.Touched) > 0
+}
 
 // ---- documented comparators, written from the doc comments
 
@@ -492,6 +690,20 @@ func oracleC16(g *Gen, n int) {
 			g.Fail(sig, info+" || file: "+strings.ReplaceAll(file, "\n", "\\n"), edSessionLine(false, file, ops))
 		}
 	}
+	// report: shrink the prefix and the starting file (never the bulk setter), then record the failure
+	report := func(work bool, file string, ops []edOp, sig string) {
+		seen[sig] = true
+		pre := ops[:len(ops)-2]
+		tail := ops[len(ops)-2:]
+		chk := func(w bool, f string, o []edOp) (string, string) {
+			return edCheckC16(w, f, append(append([]edOp{}, o...), tail...))
+		}
+		pre = edShrink(work, file, pre, sig, chk)
+		file = edShrinkFile(work, file, pre, sig, chk)
+		ops = append(append([]edOp{}, pre...), tail...)
+		_, info := edCheckC16(work, file, ops)
+		g.Fail(sig, info+" || file: "+strings.ReplaceAll(file, "\n", "\\n"), edSessionLine(work, file, ops))
+	}
 	for i := 0; i < n; i++ {
 		work := g.Chance(25)
 		file, ops, _ := edGenSession(g.Rand, work)
@@ -516,21 +728,48 @@ func oracleC16(g *Gen, n int) {
 		}
 		ops = append(append(ops, edOp{Name: "cleanup"}), set, edOp{Name: "cleanup"})
 		g.Case("c16-" + set.Name)
-		sig, info := edCheckC16(work, file, ops)
+		sig, _ := edCheckC16(work, file, ops)
 		if sig == "" || seen[sig] {
 			continue
 		}
-		seen[sig] = true
-		// shrink the prefix only
-		pre := ops[:len(ops)-2]
-		tail := ops[len(ops)-2:]
-		chk := func(w bool, f string, o []edOp) (string, string) {
-			return edCheckC16(w, f, append(append([]edOp{}, o...), tail...))
+		report(work, file, ops, sig)
+	}
+	// The class "exclude order across the go-version threshold" (see edC16ThresholdSession).
+	// (1) small-scope sweep: every minor 0..30 and the digit-count boundaries above, majors 1 and 2, plain and
+	//     with a patch part, x both setters, on one fixed exclude block on which the two documented orders
+	//     differ (digit counts of a numeric field, a release next to its pre-release, two paths).
+	{
+		minors := []int{}
+		for m := 0; m <= 30; m++ {
+			minors = append(minors, m)
 		}
-		pre = edShrink(work, file, pre, sig, chk)
-		file = edShrinkFile(work, file, pre, sig, chk)
-		ops = append(append([]edOp{}, pre...), tail...)
-		_, info = edCheckC16(work, file, ops)
-		g.Fail(sig, info+" || file: "+strings.ReplaceAll(file, "\n", "\\n"), edSessionLine(work, file, ops))
+		minors = append(minors, 99, 100, 101, 120, 121, 199, 200, 209, 210, 211, 999, 1000)
+		const body = "require (\n\texample.com/c v1.0.0\n\texample.com/a v1.0.0 // indirect\n)\n\n" +
+			"exclude (\n\texample.com/b v1.9.0\n\texample.com/b v1.10.0\n\texample.com/a v1.0.0\n\texample.com/b v1.2.0\n" +
+			"\texample.com/b v1.10.0-rc.1\n\texample.com/a v1.0.0-beta\n)\n"
+		list := []edEnt{{K: []string{"example.com/c", "v1.2.3"}, ID: -1}, {K: []string{"example.com/b", "v1.10.0"}, ID: -1},
+			{K: []string{"example.com/a", "v1.0.0"}, Ind: true, ID: -1}}
+		for _, major := range []string{"1", "2"} {
+			for _, m := range minors {
+				for _, patch := range []string{"", ".0", ".7"} {
+					for _, name := range []string{"setrequire", "setrequiresep"} {
+						file := "module example.com/m\n\ngo " + major + "." + itoa(m) + patch + "\n\n" + body
+						ops := []edOp{{Name: "cleanup"}, {Name: name, List: list}, {Name: "cleanup"}}
+						g.Case("c16-exclude-order-threshold:sweep")
+						if sig, _ := edCheckC16(false, file, ops); sig != "" && !seen[sig] {
+							report(false, file, ops, sig)
+						}
+					}
+				}
+			}
+		}
+	}
+	// (2) the random family
+	for i := 0; i < n/8+16; i++ {
+		file, ops := edC16ThresholdSession(g.Rand)
+		g.Case("c16-exclude-order-threshold:" + ops[len(ops)-2].Name)
+		if sig, _ := edCheckC16(false, file, ops); sig != "" && !seen[sig] {
+			report(false, file, ops, sig)
+		}
 	}
 }
